@@ -17,12 +17,17 @@ import (
 //      auto-connect client never redials.
 
 func init() {
-	register(&Rule{ID: "R19.6", Props: []string{"C19"}, Floor: 3,
+	register(&Rule{ID: "R19.6", Props: []string{"C19", "C09"}, Floor: 3,
 		Doc: "connection-set snapshots: methods of clientConns never edit the receiver's slice in place (copy-on-write); onConnClosed stores the reduced set on every path",
 		Run: runR19_6})
 }
 
-func runR19_6(c *Ctx, r *R) {
+func runR19_6(c *Ctx, registered *R) {
+	// registered for C19 and C09; only "the reduced set is published" also belongs to C09 (an auto-connect client
+	// that keeps a dead connection registered does not redial by itself)
+	r := &R{c: c, rule: &Rule{ID: registered.rule.ID, Props: []string{"C19"}}}
+	rPub := &R{c: c, rule: &Rule{ID: registered.rule.ID, Props: []string{"C19", "C09"}}}
+	defer func() { registered.n += r.n + rPub.n }()
 	n := 0
 	for _, fn := range c.SrcFuncs("mpx") {
 		if fn.Signature.Recv() == nil || len(fn.Params) == 0 || !typeIs(fn.Params[0].Type(), pkgPath("mpx"), "clientConns") {
@@ -137,9 +142,9 @@ func runR19_6(c *Ctx, r *R) {
 			}
 		}
 		if bad == "" {
-			r.OK(key, rm.Pos(), "the set without the closed connection is stored on every path")
+			rPub.OK(key, rm.Pos(), "the set without the closed connection is stored on every path")
 		} else {
-			r.Bad(key, rm.Pos(), "the return at %s is reached without storing the set returned by remove(conn): the closed connection stays registered - Connected remains set without a usable connection and an auto-connect client does not redial", bad)
+			rPub.Bad(key, rm.Pos(), "the return at %s is reached without storing the set returned by remove(conn): the closed connection stays registered - Connected remains set without a usable connection and an auto-connect client does not redial", bad)
 		}
 	}
 }
